@@ -96,6 +96,8 @@ SessionVerdict(x) ==
                 [] x.clause = "C06.prefix" -> C06Prefix(n, c[1], c[2])
                 [] x.clause = "C06.fault" -> C06Fault(n, c[1], c[2])
                 [] x.clause = "C12.equiv" -> C12Equiv(c[1], c[2])
+                [] x.clause = "C16.history" -> C16History(c[1], x.x)
+                [] x.clause = "C16.eager-equal" -> C12Equiv(c[1], c[2])
                 [] x.clause = "C04.equiv" -> C04Equiv(n, c[1], c[2])
                 [] x.clause = "C10.paths" -> C12Equiv(c[1], c[2])
                 [] x.clause = "C10.bitref" -> C10BitRef(n, c[1])
